@@ -180,7 +180,7 @@ func main() {
 		}
 	}
 	out := lib.NewOut(a.Out)
-	out.Rule = "grid: functions with every mix of lazy(#)/strict/variadic formals (1-3 fixed formals) x 9 call routes (direct, alias, parameter, computed callee, apply, map, typed func, recursion, self tail call) x 8 force patterns (never, once, twice, loop, substitute, substitute+force, thunk escaping in a closure / in an array and forced after the caller returned) x argument kinds (traced effect, failk, unbound symbol, type error); random: refgen programs with lazified formals; hand: written cases; non-trivial = has a function with at least one formal and a call; distinct = distinct prefix forms"
+	out.Rule = "grid: functions with every mix of lazy(#)/strict/variadic formals (1-3 fixed formals) x 11 call routes (direct, alias, parameter, computed callee, apply, map, typed func, recursion, self tail call, self tail call after a re-definition in a later evaluation, self tail call of a typed func) x formals used directly / handed on as they are to a further call (self tail call, recursion, relay function) and forced three deep x 9 force patterns (never, once, twice, loop, substitute, substitute+force, force+substitute+force, thunk escaping in a closure / in an array and forced after the caller returned) x argument kinds (traced effect, failk, unbound symbol, type error); random: refgen programs with lazified formals; hand: written cases; non-trivial = has a function with at least one formal and a call; distinct = distinct prefix forms"
 	x := &runner{r: NewRunner(budget), out: out}
 	stream(a, x)
 	out.Extra["interpreters_created"] = x.r.Recycled
@@ -203,11 +203,11 @@ func stream(a lib.Args, x *runner) {
 	EachGrid(thorough, func(gc *GridCase) {
 		ngrid++
 		var st Style
-		if gc.Route != RTyped && rng.Intn(3) == 0 {
+		if gc.Route != RTyped && gc.Route != RTypedTail && rng.Intn(3) == 0 {
 			st = Style{Rng: rng.Fork()}
 		}
 		src := gc.P.Source(st)
-		if gc.Route == RTyped {
+		if gc.Route == RTyped || gc.Route == RTypedTail {
 			src = typedSource(src, gc.Typed)
 		}
 		if gc.Split > 0 {
